@@ -32,14 +32,8 @@ impl OverlayFS {
         &self.layers[0]
     }
 
-    fn read_path(&self, path: &str) -> VfsResult<VfsPath> {
-        if path.is_empty() {
-            return Ok(self.layers[0].clone());
-        }
-        // the whiteout bookkeeping is not part of the overlay's namespace
-        if path == "/.whiteout" || path.starts_with("/.whiteout/") {
-            return Err(VfsErrorKind::FileNotFound.into());
-        }
+    /// Finds the layer entry that serves `path`, without looking at its ancestors
+    fn lookup(&self, path: &str) -> VfsResult<VfsPath> {
         if self.whiteout_path(path)?.exists()? {
             return Err(VfsErrorKind::FileNotFound.into());
         }
@@ -49,11 +43,25 @@ impl OverlayFS {
                 return Ok(layer_path);
             }
         }
-        let read_path = self.write_layer().join(&path[1..])?;
-        if !read_path.exists()? {
+        Err(VfsErrorKind::FileNotFound.into())
+    }
+
+    fn read_path(&self, path: &str) -> VfsResult<VfsPath> {
+        if path.is_empty() {
+            return Ok(self.layers[0].clone());
+        }
+        // the whiteout bookkeeping is not part of the overlay's namespace
+        if path == "/.whiteout" || path.starts_with("/.whiteout/") {
             return Err(VfsErrorKind::FileNotFound.into());
         }
-        Ok(read_path)
+        // a path is only visible if all its ancestors are visible directories: entries below a
+        // removed directory, or below a file that shadows a lower directory, do not exist
+        for (index, _) in path.match_indices('/').skip(1) {
+            if !self.lookup(&path[..index])?.is_dir()? {
+                return Err(VfsErrorKind::FileNotFound.into());
+            }
+        }
+        self.lookup(path)
     }
 
     fn write_path(&self, path: &str) -> VfsResult<VfsPath> {
